@@ -22,7 +22,7 @@ def cases(tier: str) -> list[dict[str, Any]]:
     cs: list[dict[str, Any]] = []
     for c in L.list_docs(tier):
         three = c["special"].count("|") >= 2
-        for sem in ((False, True) if (tier == "thorough" and not three) else (False,)):
+        for sem in ((False, True) if (tier == "thorough" and not three and "/top/" in c["key"]) else (False,)):
             d = dict(c)
             d.update(kind="lists", sem=sem, key=c["key"] + ("/sem" if sem else "/fill"))
             cs.append(d)
